@@ -16,3 +16,6 @@ func verifNumCommands(q *driver.CommandQueue) int { return -1 }
 func verifEngineRunning(d *driver.Driver) bool    { return false }
 func verifPending(e *sim.SerialEngine) int        { return 0 }
 func ctxPID(c *driver.Context) vm.PID             { return 0 }
+
+func verifQueues(d *driver.Driver) []*driver.CommandQueue { return nil }
+func verifNumListeners(q *driver.CommandQueue) int        { return 0 }
